@@ -3,7 +3,8 @@
 (* C36, exhaustive conformance part (model-checking mode, states = cases): *)
 (* EVERY one-parameter host function  fn f(p: T) -> T  with T of depth <= 1*)
 (* over int, float, bool, string, a `#host` struct (with a void field) and *)
-(* a `#host` enum (no field, one field, two fields, a void field), i.e.    *)
+(* two `#host` enums (no field, one field, two fields, a void field, a     *)
+(* struct field, two fields one of them void), i.e.                        *)
 (* the atoms, array<e>, option<e>, result<e, e'>, (e, e') with e, e' also  *)
 (* void, and (a, b, c) over int, string, void - each with the three        *)
 (* representative values HostAbi!ValAt.  Expected observation as in C36.   *)
@@ -12,9 +13,10 @@ EXTENDS HostText, Json, IOUtils, TLCExt
 VARIABLES ti, vj
 
 SaX == TStruct("Sax", <<"aa", "bb", "cc">>, <<TInt, TVoid, TStr>>)
-EaX == TEnum("Eax", <<TVariant("Aa", <<>>), TVariant("Bb", <<TInt>>), TVariant("Cc", <<TStr, TFloat>>),
-                     TVariant("Dd", <<TVoid>>)>>)
-AtomSeq == <<TInt, TFloat, TBool, TStr, SaX, EaX>>
+\* two enums of three variants each (ValAt cycles through three tags)
+EaX == TEnum("Eax", <<TVariant("Aa", <<>>), TVariant("Bb", <<TInt>>), TVariant("Cc", <<TStr, TFloat>>)>>)
+EbX == TEnum("Ebx", <<TVariant("Dd", <<TVoid>>), TVariant("Ee", <<SaX>>), TVariant("Ff", <<TInt, TVoid>>)>>)
+AtomSeq == <<TInt, TFloat, TBool, TStr, SaX, EaX, EbX>>
 ElemSeq == AtomSeq \o <<TVoid>>
 Small == <<TInt, TStr, TVoid>>
 NE == Len(ElemSeq)
@@ -34,6 +36,6 @@ Emit ==
   LET n == ToString((ti - 1) * 3 + vj)
       ty == Types[ti]
       sig == [name |-> "hx" \o n, camel |-> "Hx" \o n, args |-> <<ty>>, retvoid |-> FALSE]
-      c == HostCase("x" \o n, <<SaX, EaX>>, sig, <<ValAt(ty, vj)>>)
+      c == HostCase("x" \o n, <<SaX, EaX, EbX>>, sig, <<ValAt(ty, vj)>>)
   IN JsonSerialize(IOEnv.OUTDIR \o "/" \o c.id \o ".json", c)
 =============================================================================
